@@ -24,7 +24,7 @@ import (
 //verif:include ../db/zz_verif_world.go
 //verif:subst H01_res github.com/facebookincubator/dns/dnsrocks/dnsserver.typeToStatsKey github.com/facebookincubator/dns/dnsrocks/dnsserver.VerifStatsKeyStub
 //verif:subst H01_nested github.com/facebookincubator/dns/dnsrocks/dnsserver.typeToStatsKey github.com/facebookincubator/dns/dnsrocks/dnsserver.VerifStatsKeyStub
-//verif:harness H01_res property=C01 native=no quick=k=1,layout=0,pool=24;k=1,layout=2,pool=24 thorough=k=1,layout=1,pool=24;k=2,layout=2,pool=9;k=2,layout=0,pool=9
+//verif:harness H01_res property=C01 native=no quick=k=1,layout=0,pool=24;k=1,layout=2,pool=24 thorough=k=1,layout=1,pool=24;k=2,layout=2,pool=6;k=2,layout=0,pool=6
 //verif:harness H01_nested property=C01 native=no quick=layout=2,extra=0;layout=0,extra=0 thorough=layout=1,extra=0;layout=2,extra=1;layout=0,extra=1
 
 func verifC01Pool() []dnsdata.VerifRec {
